@@ -2,5 +2,6 @@ SPECIFICATION Spec
 CONSTANT Mode = "faithful"
 CONSTANT K = 3
 CONSTANT KW = 2
+CONSTANT KB = 1
 CONSTANT EmitScn = TRUE
 CHECK_DEADLOCK FALSE
